@@ -6022,3 +6022,21 @@ mod canonicalize_tests {
 	}
 }
 
+
+
+// ---- verification hook (compiled only with --cfg mathcat_verif); see /verif/DESIGN.md §5 (H4)
+/// Evaluate the locale number regexes of `CanonicalizeContextPatterns` on `text`:
+/// [decimal_separator, block_separator, digit_only_decimal_number, block_3digit, block_3_5digit, block_4digit_hex, block_1digit]
+#[cfg(mathcat_verif)]
+pub fn verif_number_patterns(text: &str, block_separators: &str, decimal_separators: &str) -> [bool; 7] {
+	let patterns = CanonicalizeContextPatterns::new(block_separators, decimal_separators);
+	return [
+		patterns.decimal_separator.is_match(text),
+		patterns.block_separator.is_match(text),
+		patterns.digit_only_decimal_number.is_match(text),
+		patterns.block_3digit_pattern.is_match(text),
+		patterns.block_3_5digit_pattern.is_match(text),
+		patterns.block_4digit_hex_pattern.is_match(text),
+		patterns.block_1digit_pattern.is_match(text),
+	];
+}
